@@ -1,5 +1,6 @@
 import TapkeeVerif.Props.C04Compose
 import TapkeeVerif.Props.C12b
+import TapkeeVerif.Props.C09Compose
 /-!
 Helpers for `Props/C12Compose.lean` (end-to-end equivariance of the composed Isomap model): how the per-stage
 equivariance lemmas of `Props/C12b.lean` / `Props/C03.lean` meet the interfaces of `IsomapCompose.isomapEmbedModel`.
@@ -219,4 +220,42 @@ theorem geodesic_perm_edges (hu : Uniform g N k) (hu' : Uniform g' N k)
     exact h.2 d' this
 
 end geo
+section le
+open TapkeeVerif.LeCompose TapkeeVerif.Laplacian
+variable {K : Type} [Field K] [LinearOrder K] [IsStrictOrderedRing K]
+
+omit [LinearOrder K] [IsStrictOrderedRing K] in
+/-- the `found` component of a successful run of the composed Laplacian Eigenmaps model -/
+theorem le_model_found {δ : Nat → Nat → K} {N k : Nat} {check : Bool} {d : Nat} {hd : 1 + d ≤ N} {width : K}
+    {heat : K → K} {search : Nat → Graph} {solver : Mat N N K → Vec N K → Mat N N K × Vec N K}
+    {o : LeOut N d K} (h : leEmbedModel δ N k check d hd width heat search solver = .ok o) :
+    findNeighbors search N check (findFuel N) k [] = .ok o.found := by
+  unfold leEmbedModel at h
+  split at h
+  · cases h
+  · cases h
+  · rename_i f hf
+    split at h
+    · injection h with h
+      subst h
+      exact hf
+    · cases h
+
+omit [LinearOrder K] [IsStrictOrderedRing K] in
+/-- the heat values do not change when the distances are scaled by `c ≠ 0` and the width by `c²` -/
+theorem computeLaplacian_scale {N : Nat} {c : K} (hc : c ≠ 0) (heat : K → K) (δ : Nat → Nat → K) (width : K)
+    (f f' : Found) (e : f' = f) (hu : Uniform f.graph N f.k) (hu' : Uniform f'.graph N f'.k) :
+    computeLaplacian heat (fun i j : Fin N => c * δ i.1 j.1) (c ^ 2 * width) (nbOf hu')
+      = computeLaplacian heat (fun i j : Fin N => δ i.1 j.1) width (nbOf hu) := by
+  subst e
+  rw [C09.computeLaplacian_eq, C09.computeLaplacian_eq]
+  have : ∀ i a, heat (-(c * δ i.1 (nbOf hu i a).1) ^ 2 / (c ^ 2 * width))
+      = heat (-(δ i.1 (nbOf hu i a).1) ^ 2 / width) := by
+    intro i a
+    congr 1
+    rw [show -(c * δ i.1 (nbOf hu i a).1) ^ 2 = c ^ 2 * (-(δ i.1 (nbOf hu i a).1) ^ 2) by ring,
+      mul_div_mul_left _ _ (pow_ne_zero 2 hc)]
+  simp only [this]
+
+end le
 end TapkeeVerif.EquivCompose
